@@ -237,7 +237,20 @@ def check_property(pid, tier, seed):
         finite_results.extend(getattr(mod, fname)(REPO))
     # ---- discharge -------------------------------------------------------------------------------
     smt_dir = os.path.join(OUT, "smt", pid)
-    results = solve.discharge_all(obligations, smt_dir, timeout=timeout, jobs=16, all_solvers=(tier == "thorough"))
+    known_all = [k for k in load_known() if k.get("property") == pid and k.get("status", "known") == "known"]
+    # obligations listed under a recorded finding: a short budget is enough (`unsat` = the defect is gone; `sat` or
+    # no answer = still open, confirmed below by replaying the recorded witness on the real code)
+    is_known = [match_known(known_all, o.id, None) is not None for o in obligations]
+    normal = [o for o, k in zip(obligations, is_known) if not k]
+    listed = [o for o, k in zip(obligations, is_known) if k]
+    res_n = solve.discharge_all(normal, smt_dir, timeout=timeout, jobs=16, all_solvers=(tier == "thorough"))
+    res_l = solve.discharge_all(listed, smt_dir, timeout=3, jobs=16, order=("z3-5.1",)) if listed else []
+    for r in res_l:
+        if r["verdict"] == "unknown":
+            r["verdict"] = "sat"            # treated as still failing; the witness replay decides what is reported
+            r["by"] = "undecided-within-budget(listed under a known finding)"
+    it_n, it_l = iter(res_n), iter(res_l)
+    results = [next(it_l) if k else next(it_n) for k in is_known]
     by_backend = {}
     solver_s = 0.0
     failed, undecided = [], []
